@@ -24,8 +24,11 @@ from .crash import create_store, close_store, dir_digest
 
 MARK = "DECOY-SECRET-7f3a"
 
-DOTS = ["..", "%2e%2e", "%2E%2E", ".%2e", "%2e.", "%2E.", "..;", "..%00", "%252e%252e"]
-SLASH = ["/", "/", "//", "%2f", "%2F", "%5c", "/./"]
+DOTS = ["..", "%2e%2e", "%2E%2E", ".%2e", "%2e.", "%2E.", "..;", "..%00", "%252e%252e",
+        # characters that some normalisation turns into dots: U+2025 two dot leader, fullwidth full
+        # stops, one dot leaders, and the overlong UTF-8 spelling of '.'
+        "%E2%80%A5", "%EF%BC%8E%EF%BC%8E", "%E2%80%A4%E2%80%A4", ".%EF%BC%8E", "%c0%ae%c0%ae"]
+SLASH = ["/", "/", "//", "%2f", "%2F", "%5c", "/./", "/", "/", "%EF%BC%8F", "%c0%af"]
 
 
 def make_config(seed, tier):
@@ -300,11 +303,19 @@ class PathRun:
         self.count("oracle4_state_changing_requests")
         pre = self.cfg["prefix"].rstrip("/")
         raw_path = op["path"]
-        decoded = urllib.parse.unquote(raw_path)
-        norm = posixpath.normpath("/" + decoded)
-        if decoded.endswith("/") and not norm.endswith("/"):
-            norm += "/"
-        while norm.startswith("//"):
+        # on bytes: the path may carry octets that are not UTF-8, and must keep them
+        decoded = urllib.parse.unquote_to_bytes(raw_path)
+        try:
+            decoded.decode("utf-8")
+        except UnicodeDecodeError:
+            # undecodable escapes reach the file system as literal "%c0%af" text (aiohttp) or as
+            # surrogates (WSGI); no other spelling of the target is byte-for-byte the same request
+            self.count("oracle4_skipped_not_utf8")
+            return
+        norm = posixpath.normpath(b"/" + decoded)
+        if decoded.endswith(b"/") and not norm.endswith(b"/"):
+            norm += b"/"
+        while norm.startswith(b"//"):
             norm = norm[1:]
         ntarget = pre + urllib.parse.quote(norm, safe="/")
         # twin: a fresh server on a clone of the pre-state
